@@ -197,7 +197,7 @@ def check(ctx):
             seen.add(json.dumps([h["W"], h["D"], h["table"], h["msgs"]], sort_keys=True))
     ctx.distinct_nontrivial = cov["len_ge2"] + len(seen)
     ctx.exhaustive = True
-    for k in ("replayed", "fast_path", "slow_path", "drift", "drift_dup_index", "sampled", "random", "det", "det_skipped", "dup", "subtick", "nowriter"):
+    for k in ("replayed", "fast_path", "slow_path", "drift", "drift_dup_index", "drift_untraced", "sampled", "random", "det", "det_skipped", "dup", "subtick", "nowriter"):
         ctx.extra[k] = info[k]
     ctx.extra["design_conformance"] = {"steps": info["replayed"], "mismatches": info["drift"],
                                        "expected_tie_order_drifts_with_repeated_index": info["drift_dup_index"]}
